@@ -50,6 +50,9 @@ func (ci *ContractInvocation) DecodeBinary(r *io.BinReader) {
 	ci.Method = r.ReadString()
 	ci.ArgumentsCount = r.ReadU32LE()
 	ci.Truncated = r.ReadBool()
+	// The receiver can hold arguments of another invocation.
+	ci.Arguments = nil
+	ci.argumentsBytes = nil
 	if !ci.Truncated {
 		ci.argumentsBytes = r.ReadVarBytes()
 	}
